@@ -47,6 +47,10 @@ def _tmpdir():
         d = tempfile.mkdtemp(prefix='verif_outputs_', dir='/tmp')
         _TMP.append(d)
         atexit.register(shutil.rmtree, d, ignore_errors=True)
+        # pool workers of the driver leave through os._exit: atexit does not run there, the
+        # multiprocessing finalizers do
+        from multiprocessing import util as _mpu
+        _mpu.Finalize(None, shutil.rmtree, args=(d,), kwargs=dict(ignore_errors=True), exitpriority=10)
     return _TMP[0]
 
 
@@ -123,4 +127,43 @@ contract(
         # the input list itself is not modified
         "results_blob == old(results_blob)",
     ],
+)
+
+
+# ---------------------------------------------------------------------------------------------
+# _blob_to_hdf5_results (C15.a): the node <-> integer tables written next to the integer-coded
+# assignments are mutually inverse at every level, so decoding (hdf5_to_blob: int_to_node[level][i])
+# undoes encoding (node_to_int[level][node]).  Slice: only the table-building loop is tracked; the
+# numpy / h5py part and the per-cell loop are covered by bounded/c15.py (hdf5-roundtrip).
+# ---------------------------------------------------------------------------------------------
+def _tables_ok(j):
+    """tables of level hierarchy[j] are complete and mutually inverse"""
+    lv = f"taxonomy_tree.hierarchy[{j}]"
+    nodes = f"tree_nodes(taxonomy_tree, {lv})"
+    return (f"({lv} in node_to_int and {lv} in int_to_node and len(int_to_node[{lv}]) == len({nodes}) and "
+            f"all({nodes}[q] in node_to_int[{lv}] and node_to_int[{lv}][{nodes}[q]] == q and "
+            f"int_to_node[{lv}][q] == {nodes}[q] for q in range(len({nodes}))))")
+
+
+contract(
+    M + '_blob_to_hdf5_results',
+    properties=['C15'], mode='slice', unexpected_exceptions='allowed',
+    tracked=['taxonomy_tree', 'node_to_int', 'int_to_node', 'these_nodes', 'i_node', 'node', 'i_level', 'level',
+             'directly_assigned'],
+    params=dict(output_blob='Opaque', dst_path='Opaque', metadata='Opaque'),
+    locals=dict(taxonomy_tree='OutTree', node_to_int='Dict[Name,Dict[Name,Int]]',
+                int_to_node='Dict[Name,List[Opt[Name]]]', these_nodes='List[Name]',
+                directly_assigned='Arr[Bool]'),
+    returns='None',
+    ensures=[],
+    loops={
+        0: [f"all({_tables_ok('j')} for j in range(_i))",
+            "len(directly_assigned) == len(taxonomy_tree.hierarchy)"],
+        # when the per-cell loop starts (and all along it), every level has its pair of tables
+        2: [f"all({_tables_ok('j')} for j in range(len(taxonomy_tree.hierarchy)))"],
+        1: ["level in node_to_int and level in int_to_node and len(int_to_node[level]) == len(these_nodes)",
+            "all(these_nodes[q] in node_to_int[level] and node_to_int[level][these_nodes[q]] == q "
+            "and int_to_node[level][q] == these_nodes[q] for q in range(_i))",
+            f"all(implies(_it0[j] != level, {_tables_ok('j')}) for j in range(_i0))"],
+    },
 )
